@@ -231,6 +231,11 @@ func c03(c *Ctx) {
 	// ---- index (F1) ----
 	c.checksumIndexGuard("index")
 	c.overrideMarking("index/override-marking")
+	// ---- every page of the transaction (tombstones of truncated pages included) enters the WAL checksum overlay ----
+	c.EveryIteration("advance/wal-chksums-every-page", "litefs.(*DB).CommitWAL", pat("make(map[uint32]ltx.Checksum)"), c.P.Writes("litefs.DB.wal.chksums[]"),
+		"CommitWAL appends the new checksum of every page of the transaction - including the zero tombstone of a page truncated away - to the in-memory WAL overlay, unconditionally",
+		"DB.checksum uses the overlay's keys to decide which 256-page blocks it may not take from the cached aggregate: a truncated page that is not recorded leaves its block's stale aggregate in every later checksum of this WAL generation")
+
 }
 
 func mapKeys(p *Prog, fn *ssa.Function, m IM) []string {
